@@ -12,6 +12,17 @@ Fixpoint list_eqb {A} (eq : A -> A -> bool) (a b : list A) : bool :=
   match a, b with [], [] => true | x :: a', y :: b' => eq x y && list_eqb eq a' b' | _, _ => false end.
 Definition pt_close := list_eqb close.
 Definition pts_close := list_eqb pt_close.
+(* coordinates of a point of the box bs: the rounding of the double arithmetic is relative to the magnitudes of the operands, i.e. to the
+   bounds of that coordinate (a coordinate ranging over +-1e9 that should be 0 comes out as 1e-8), so the comparison is scaled by them *)
+Definition bscale (b : Q * Q) : Q := Qmaxb 1 (Qmaxb (Qabs (fst b)) (Qabs (snd b))).
+Definition close_at (s a b : Q) : bool := Qle_bool (Qabs (a - b)) (tol * Qmaxb s (Qabs b)).
+Fixpoint pt_close_box (bs : list (Q * Q)) (a b : point) : bool :=
+  match bs, a, b with
+  | [], [], [] => true
+  | s :: bs', x :: a', y :: b' => close_at (bscale s) x y && pt_close_box bs' a' b'
+  | _, _, _ => false
+  end.
+Definition pts_close_box (bs : list (Q * Q)) := list_eqb (pt_close_box bs).
 Definition pt_eq := list_eqb Qeq_bool.
 Definition pts_eq := list_eqb pt_eq.
 
@@ -105,7 +116,7 @@ Definition check (c : case) : bool :=
   match c with
   | CRestrict d c vp on us ps fixed out used =>
       let '(m, rest) := restrict_points d c vp on us ps in
-      pts_close (map (fix_point fixed) m) out &&
+      pts_close_box (bounds d) (map (fix_point fixed) m) out &&
       Nat.eqb (length us - length rest) used &&
       forallb (feasible_tol d) out && forallb (fixed_in fixed) out &&
       (* feasible inputs come back exactly *)
@@ -117,7 +128,7 @@ Definition check (c : case) : bool :=
       forallb (feasible_tol d) out && forallb (fixed_in fixed) out && Nat.eqb (length out) (length zs) &&
       match near_point d c pt on zs us with
       | None => fellback
-      | Some (m, _) => negb fellback && pts_close (map (fix_point fixed) m) out
+      | Some (m, _) => negb fellback && pts_close_box (bounds d) (map (fix_point fixed) m) out
       end
   | CCube exact bs rows out =>
       forallb all_unit rows &&
